@@ -125,6 +125,10 @@ func smudgeKS(c *engine.Chooser, nm string, sigma float64, ntt bool) {
 	for round := 0; !pool.full(); round++ {
 		lvl := round % (params.MaxLevel() + 1)
 		ct, _ := encryptUnder(params, In.Ideal, lvl, nm, "pt", round)
+		if round%2 == 1 { // every other round: the ciphertext is in the domain the parameters do not use by default
+			flipDomain(params, ct)
+		}
+		coverDomain(c, params, ct)
 		for i := 0; i < smudgeParties; i++ {
 			p := ks[i]
 			sh := p.AllocateShare(lvl)
@@ -154,6 +158,10 @@ func smudgePCKS(c *engine.Chooser, nm string, sigma float64, ntt bool) {
 	for round := 0; !pool.full(); round++ {
 		lvl := round % (params.MaxLevel() + 1)
 		ct, _ := encryptUnder(params, In.Ideal, lvl, nm, "pt", round)
+		if round%2 == 1 { // every other round: the ciphertext is in the domain the parameters do not use by default
+			flipDomain(params, ct)
+		}
+		coverDomain(c, params, ct)
 		for i := 0; i < smudgeParties; i++ {
 			p := pcks[i]
 			sh := p.AllocateShare(lvl)
